@@ -581,6 +581,9 @@ def w9(run: Run, cy: CyProgram):
                 and x.a[0] is not None]
         if len(rets) != 1 or len(f.args) < 5:
             raise AnalysisError(f"{f.where}: condition {f.name} has no single return")
+        if pp(rets[0].a[0]) in ("True", "1"):
+            # "no condition": promises nothing; W10 decides where it may be used
+            continue
         s_, t_, k_, l_ = [a for a, _ in f.args][-4:]
         arr = f.args[0][0]
         kind = "deg" if f.name.startswith("cond_deg") else "len"
@@ -637,6 +640,87 @@ def w9(run: Run, cy: CyProgram):
     run.floor("W9 condition alternatives", n, 4)
 
 
+def w10(run: Run, cy: CyProgram):
+    """Each geographical rewiring model hands the core kernel the conditions it
+    promises: models I and II a link-length condition, model III a link-length
+    *and* a degree condition - none of them the empty condition (a NULL pointer
+    or a predicate returning True).  The predicates are followed through cdef
+    helpers; their kind is the type of their first parameter (2-D distances /
+    1-D degrees)."""
+    mod = cy.modules[CORE]
+    core = mod.funcs.get("_randomly_rewire_geomodel")
+    if core is None:
+        raise AnalysisError("_randomly_rewire_geomodel vanished")
+
+    def trivial(name):
+        g = mod.funcs.get(name)
+        if g is None:
+            return True                       # NULL / unknown pointer
+        rets = [x for x in walk(g.body) if isinstance(x, X) and x.k == "return"
+                and x.a[0] is not None]
+        return bool(rets) and all(pp(r.a[0]) in ("True", "1") for r in rets)
+
+    def kind(name):
+        g = mod.funcs.get(name)
+        if g is None or not g.args:
+            return None
+        t = g.args[0][1]
+        return "len" if getattr(t, "ndim", 0) == 2 else "deg" if getattr(t, "ndim", 0) == 1 \
+            else None
+
+    def reaching(f, env, depth=0):
+        """condition function names passed (directly or through helpers) to core"""
+        out = []
+        for c in walk(f.body):
+            if not (isinstance(c, X) and c.k == "call" and c.a[0].k == "name"):
+                continue
+            g = mod.funcs.get(c.a[0].a[0])
+            if g is None or g is f or depth > 3:
+                continue
+
+            def val(a):
+                if a.k == "name":
+                    if a.a[0] in env:
+                        return env[a.a[0]]
+                    return a.a[0]
+                return None
+            if g is core:
+                out.append([val(a) for a in c.a[1]])
+            else:
+                env2 = {pn: val(a) for (pn, _), a in zip(g.args, c.a[1])}
+                out.extend(reaching(g, env2, depth + 1))
+        return out
+    n = 0
+    for suffix, need in (("I", {"len"}), ("II", {"len"}), ("III", {"len", "deg"})):
+        w = mod.funcs.get(f"_randomly_rewire_geomodel_{suffix}")
+        if w is None:
+            raise AnalysisError(f"_randomly_rewire_geomodel_{suffix} vanished")
+        calls = reaching(w, {})
+        if not calls:
+            run.unknowns.append(f"W10: {w.where}: no call of the core kernel reached "
+                                f"from model {suffix}; conditions not decided")
+            continue
+        for args in calls:
+            conds = [a for a in args if isinstance(a, str) and
+                     (a in mod.funcs or a in mod.globals or a.startswith("cond_"))]
+            got = {kind(a) for a in conds if not trivial(a)} - {None}
+            if not any(a in mod.funcs for a in conds):
+                run.unknowns.append(f"W10: {w.where}: the conditions of model {suffix} "
+                                    f"are not passed as predicates; not decided")
+                continue
+            n += 1
+            missing = sorted(need - got)
+            run.oblige("W10", f"geomodel_{suffix}:conditions", not missing, sample={
+                "where": w.where, "passed": conds})
+            if missing:
+                run.add("W10", f"_randomly_rewire_geomodel_{suffix}/condition/" +
+                        ",".join(missing), w.where,
+                        f"model {suffix} must conserve {sorted(need)} but reaches the "
+                        f"core kernel with the conditions {conds}: no non-trivial "
+                        f"{missing} condition is checked before a swap")
+    run.floor("W10 model wrappers", n, 3)
+
+
 def w8(run: Run, prog: Program):
     """A rebuild of an existing network from an edge list keeps its size: outside
     the constructor, `self.set_edge_list(edges)` must pass the node count,
@@ -674,6 +758,8 @@ def w8(run: Run, prog: Program):
 
 
 def check(run: Run, prog: Program, cy: CyProgram, sites):
+    run.rule("W10", "each geographical rewiring model passes the conditions it "
+             "promises (I, II: link length; III: link length and degree pairs)")
     run.rule("W9", "every alternative of a rewiring acceptance condition implies that "
              "the new links carry the old links' lengths / degree pairs")
     run.rule("W8", "rebuilding an existing network from an edge list passes the node "
@@ -700,6 +786,7 @@ def check(run: Run, prog: Program, cy: CyProgram, sites):
     w4(run, prog)
     w8(run, prog)
     w9(run, cy)
+    w10(run, cy)
     n = report_sites(run, "W4", sites, lambda s: s.kernel.name.startswith(
         ("_randomly_rewire_geomodel", "_randomlySetCrossLinks",
          "_randomlyRewireCrossLinks")))
